@@ -318,14 +318,22 @@ func goroutineBlock(gid int64) string {
 	return rest
 }
 
+// repoFrame returns the relay function the goroutine is blocked in: the first frame below the
+// standard library must be the relay's; "" when the goroutine is parked in harness code.
 func repoFrame(block string) string {
 	for _, l := range strings.Split(block, "\n") {
+		if l == "" || l[0] == '\t' || strings.HasPrefix(l, "goroutine ") || strings.HasPrefix(l, "created by ") {
+			continue
+		}
 		if strings.HasPrefix(l, "github.com/grafana/carbon-relay-ng/") {
 			f := strings.TrimPrefix(l, "github.com/grafana/carbon-relay-ng/")
 			if k := strings.LastIndex(f, "("); k > 0 {
 				f = f[:k]
 			}
 			return f
+		}
+		if strings.HasPrefix(l, "verifharness/") || strings.HasPrefix(l, "main.") {
+			return ""
 		}
 	}
 	return ""
